@@ -1,12 +1,67 @@
 /-
-  SF.Ops — dispatch of operation lines to the executable models and oracles.
-  `model = none` means the driver has no model for the op (never silently `ok`).
+  SF.Ops.Main — dispatch of operation lines to the executable models (correspondence) and
+  the specification oracles.  `model = none` means the driver has no model for the op
+  (reported as SKIP, never silently `ok`).
 -/
 import SF.Ops.Common
+import SF.Ops.Oracle
 import SF.Ops.Cbor
+import SF.Ops.Ubjson
+import SF.Ops.Json
 import SF.Gotype.Symbols
 namespace SF.Ops
 open SF
+
+def cborCodec : Codec where
+  name := "cbor"
+  encModel := fun _ ff xs => Cbor.encModel ff xs
+  parseModel := Cbor.parseModel
+  decModel := fun bs _ mn cs => Cbor.decModel bs mn cs
+  ref := cborRef
+  approx := fun _ a b => a == b
+  encDocs := Cbor.encDocs
+  parseDocs := Cbor.parseDocs
+  parseEvents := Cbor.parseEvents
+  encEvents := Cbor.encEvents
+
+def ubjCodec : Codec where
+  name := "ubj"
+  encModel := fun _ ff xs => Ubjson.encModel ff xs
+  parseModel := Ubjson.parseModel
+  decModel := Ubjson.decModel
+  ref := ubjRef
+  approx := fun _ a b => approxUbj a b
+  encDocs := Ubjson.encDocs
+  parseDocs := Ubjson.parseDocs
+  parseEvents := Ubjson.parseEvents
+  encEvents := Ubjson.encEvents
+
+def jsonCodec : Codec where
+  name := "json"
+  encModel := Json.encModel
+  parseModel := Json.parseModel
+  decModel := Json.decModel
+  ref := jsonRef
+  approx := approxJson
+  mayRefuse := fun opts evs => !opts.toList.contains 'i' && hasNonFinite evs
+  encDocs := Json.encDocs
+  parseDocs := Json.parseDocs
+  parseEvents := Json.parseEvents
+  encEvents := Json.encEvents
+
+def codecOf (fmt : String) : Option Codec :=
+  if fmt == "cbor" then some cborCodec
+  else if fmt == "ubj" then some ubjCodec
+  else if fmt == "json" then some jsonCodec
+  else none
+
+/-- transcoding: the source parser delivers its own representation of the value (what the
+source format's rules make of it), the target encoder then applies its rules: the value of
+the target document is related to the source value through the target's relation, where
+the source side is first normalised by what the source PARSER reports (e.g. UBJSON `H` is a
+string; JSON floats that are integers are integers) — both documents are decoded by the
+specifications, so the relation is `target.approx` on the decoded source values. -/
+def xApprox (_s d : Codec) (opts : String) (src got : List Val) : Bool := allApprox d opts src got
 
 /-- lru <cap> <keys> -/
 def opLRU (args : List String) (impl : String) : Result :=
@@ -46,31 +101,165 @@ def opLRU (args : List String) (impl : String) : Result :=
     | _, _ => { model := none }
   | _ => { model := none }
 
+def optsOf (s : String) : String := if s == "-" then "" else s
+
 def opEnc (args : List String) (impl : String) : Result :=
   match args with
-  | [fmt, _opts, ff, xs] =>
-    match decToInt? ff, parseXEvs xs with
-    | some failFrom, some xevs =>
-      if fmt == "cbor" then { model := some (Cbor.encModel failFrom xevs) } else noModel
-    | _, _ => noModel
+  | [fmt, opts, ff, xs] =>
+    match codecOf fmt, decToInt? ff, parseXEvs xs with
+    | some c, some failFrom, some xevs =>
+      { model := some (c.encModel (optsOf opts) failFrom xevs),
+        fails := encOracle c (optsOf opts) failFrom xevs impl }
+    | _, _, _ => noModel
   | _ => noModel
 
 def opParse (args : List String) (impl : String) : Result :=
   match args with
   | [fmt, entry, fa, cs] =>
-    match decToInt? fa, parseChunks cs with
-    | some failAt, some chunks =>
-      if fmt == "cbor" then { model := some (Cbor.parseModel entry failAt chunks) } else noModel
-    | _, _ => noModel
+    match codecOf fmt, decToInt? fa, parseChunks cs with
+    | some c, some failAt, some chunks =>
+      { model := some (c.parseModel entry failAt chunks),
+        fails := if failAt < 0 then parseOracle c entry chunks.flatten impl
+                 else parseFaultOracle c failAt.toNat impl }
+    | _, _, _ => noModel
   | _ => noModel
 
 def opDec (args : List String) (impl : String) : Result :=
   match args with
-  | [fmt, bs, _le, mn, cs] =>
-    match decToNat? bs, decToNat? mn, parseChunks cs with
-    | some bufsize, some maxNext, some chunks =>
-      if fmt == "cbor" then { model := some (Cbor.decModel bufsize maxNext chunks) } else noModel
+  | [fmt, bs, le, mn, cs] =>
+    match codecOf fmt, decToNat? bs, decToNat? mn, parseChunks cs with
+    | some c, some bufsize, some maxNext, some chunks =>
+      { model := some (c.decModel bufsize (le == "1") maxNext chunks),
+        fails := decOracle c chunks.flatten impl }
+    | _, _, _, _ => noModel
+  | _ => noModel
+
+/-- rt <fmt> <opts> <xevents> -/
+def opRT (args : List String) (impl : String) : Result :=
+  match args with
+  | [fmt, opts, xs] =>
+    match codecOf fmt, parseXEvs xs with
+    | some c, some xevs =>
+      let enc := c.encModel (optsOf opts) (-1) xevs        -- hex|res|d|wf
+      let model := match enc.splitOn "|" with
+        | [h, r, _, _] =>
+          let bytes := if h == "-" then [] else (ofHex h).getD []
+          match (c.parseModel "P" (-1) [bytes]).splitOn "|" with
+          | [e, v, _] => s!"{h}|{r}|{e}|{v}"
+          | _ => "?"
+        | _ => "?"
+      { model := some model, fails := rtOracle c (optsOf opts) xevs impl }
+    | _, _ => noModel
+  | _ => noModel
+
+/-- chunk <fmt> <entry> <chunks> -/
+def opChunk (args : List String) (impl : String) : Result :=
+  match args with
+  | [fmt, entry, cs] =>
+    match codecOf fmt, parseChunks cs with
+    | some c, some chunks =>
+      let whole := match (c.parseModel "P" (-1) [chunks.flatten]).splitOn "|" with
+        | [e, v, _] => s!"{e}|{v}"
+        | _ => "?"
+      { model := some (whole ++ "|" ++ c.parseModel entry (-1) chunks),
+        fails := chunkOracle c entry impl }
+    | _, _ => noModel
+  | _ => noModel
+
+/-- ext <fmt> <opts> <prefix> <x> <suffix> -/
+def opExt (args : List String) (impl : String) : Result :=
+  match args with
+  | [fmt, opts, pre, x, suf] =>
+    match codecOf fmt, parseXEvs pre, XEv.ofTok? x, parseXEvs suf with
+    | some c, some pre, some x, some suf =>
+      let run (mid : List XEv) : String :=
+        -- result and bytes of the whole stream; depth right after `mid`
+        let all := c.encModel (optsOf opts) (-1) (pre ++ mid ++ suf)
+        let upto := c.encModel (optsOf opts) (-1) (pre ++ mid)
+        match all.splitOn "|", upto.splitOn "|" with
+        | [h, r, _, _], [_, r2, d2, _] => s!"{h}|{r}|{if r2 == "ok" then d2 else ""}"
+        | _, _ => "?"
+      { model := some (run [x] ++ "|" ++ run (x.expand.map XEv.ev)),
+        fails := extOracle c (optsOf opts) (pre ++ [x] ++ suf) impl }
+    | _, _, _, _ => noModel
+  | _ => noModel
+
+/-- xcode <src> <dst> <opts> <chunks> -/
+def opXcode (args : List String) (impl : String) : Result :=
+  match args with
+  | [src, dst, opts, cs] =>
+    match codecOf src, codecOf dst, parseChunks cs with
+    | some s, some d, some chunks =>
+      let (evs, pv) := s.parseEvents chunks
+      let (out, er) := d.encEvents (optsOf opts) evs
+      let verdict := match er with | some _ => "err" | none => (if pv == "ok" then "ok" else "err")
+      let model := s!"{hexOrDash out}|{verdict}"
+      -- oracle (C08): value of the target document = value of the source document
+      let fails :=
+        match impl.splitOn "|" with
+        | [h, v] =>
+          if isBad v then [s!"C08 {src}-to-{dst}-{v}"] else
+          match s.ref chunks.flatten with
+          | .ok vs mr =>
+            if v != "ok" then
+              (if mr || d.mayRefuse (optsOf opts) evs then [] else [s!"C08 {src}-to-{dst}-fails-on-valid-document"])
+            else
+              match (if h == "-" then some [] else ofHex h).map d.ref with
+              | some (.ok got _) =>
+                if xApprox s d (optsOf opts) vs got then [] else [s!"C08 {src}-to-{dst}-changes-value"]
+              | _ => [s!"C08 {src}-to-{dst}-target-invalid"]
+          | .undetermined => []
+          | _ => if v == "ok" then [s!"C08 {src}-to-{dst}-accepts-invalid-source"] else []
+        | _ => if isBad impl then [s!"C08 {src}-to-{dst}-{impl}"] else []
+      { model := some model, fails := fails }
     | _, _, _ => noModel
+  | _ => noModel
+
+/-- reuse-enc <fmt> <opts> <doc;doc;…;probe> -/
+def opReuseEnc (args : List String) (impl : String) : Result :=
+  match args with
+  | [fmt, opts, docsS] =>
+    match codecOf fmt, allSome ((docsS.splitOn ";").map parseXEvs) with
+    | some c, some docs =>
+      let model :=
+        match c.encDocs (optsOf opts) docs, c.encDocs (optsOf opts) [docs.getLast!] with
+        | some rs, some [fresh] =>
+          s!"{toHex rs.getLast!.1}|{toHex fresh.1}|{"/".intercalate (rs.map (·.2))}"
+        | _, _ => "err"
+      let fails :=
+        if isBad impl then [s!"C17 {fmt}-encoder-{impl}"] else
+        match impl.splitOn "|" with
+        | [a, b, ds] =>
+          (if a != b then [s!"C17 {fmt}-reused-encoder-writes-different-bytes"] else []) ++
+          (if (ds.splitOn "/").any (fun d => d.toList.any (fun ch => ch != '0' && ch != '.')) &&
+              docs.all (fun d => WF (expandAll d))
+           then [s!"C17 {fmt}-encoder-stack-not-idle-between-documents depths={ds}"] else [])
+        | _ => []
+      { model := some model, fails := fails }
+    | _, _ => noModel
+  | _ => noModel
+
+/-- reuse-parse <fmt> <doc;doc;…;probe> -/
+def opReuseParse (args : List String) (impl : String) : Result :=
+  match args with
+  | [fmt, docsS] =>
+    match codecOf fmt, allSome ((docsS.splitOn ";").map ofHex) with
+    | some c, some docs =>
+      let model :=
+        match c.parseDocs docs, c.parseDocs [docs.getLast!] with
+        | some rs, some [fresh] =>
+          s!"{evsToString rs.getLast!.1}|{evsToString fresh.1}|{"/".intercalate (rs.map (·.2))}"
+        | _, _ => "err"
+      let fails :=
+        if isBad impl then [s!"C17 {fmt}-parser-{impl}"] else
+        match impl.splitOn "|" with
+        | [a, b, ds] =>
+          (if a != b then [s!"C17 {fmt}-reused-parser-reports-different-events"] else []) ++
+          (if (ds.splitOn "/").any (fun d => d.toList.any (fun ch => ch != '0' && ch != '.'))
+           then [s!"C17 {fmt}-parser-stack-not-idle-between-documents depths={ds}"] else [])
+        | _ => []
+      { model := some model, fails := fails }
+    | _, _ => noModel
   | _ => noModel
 
 def runLine (op : String) (impl : String) : Result :=
@@ -79,6 +268,12 @@ def runLine (op : String) (impl : String) : Result :=
   | "enc" :: args => opEnc args impl
   | "parse" :: args => opParse args impl
   | "dec" :: args => opDec args impl
+  | "rt" :: args => opRT args impl
+  | "chunk" :: args => opChunk args impl
+  | "ext" :: args => opExt args impl
+  | "xcode" :: args => opXcode args impl
+  | "reuse-enc" :: args => opReuseEnc args impl
+  | "reuse-parse" :: args => opReuseParse args impl
   | _ => { model := none }
 
 end SF.Ops
